@@ -76,8 +76,7 @@ impl<const BITS: usize, const LIMBS: usize> Uint<BITS, LIMBS> {
     #[inline]
     #[must_use]
     pub fn next_multiple_of(self, rhs: Self) -> Self {
-        self.checked_next_multiple_of(rhs).unwrap();
-        todo!()
+        self.checked_next_multiple_of(rhs).unwrap()
     }
 
     /// Calculates the smallest value greater than or equal to `self` that is a
